@@ -529,4 +529,43 @@ def specRun (n : Nat) (p : APool) (ops : List Op) : APool :=
 def absPool (s : St) : APool :=
   fun k => bif liveN s k then some (held s (.named k)) else none
 
+/-! ### The specification with exceptions, and what a client observes of the abstract pool
+
+`specCopied` reads off the abstract pool which held value an operation copy-constructs (the counterpart of
+`copied`); `specStepX` is the specification of an operation that may be run with the throwing probe armed: a
+throwing operation changes nothing.  `specViewSlot` / `specLiveOfTag` are what a client observes of a slot and
+how many held objects of a type are alive, as functions of the abstract pool alone.  The driver entry `anyspec`
+executes these (no heap, no pointers) on the same case lines as the implementation. -/
+
+def aHeld (p : APool) (k : Nat) : Option Val := (p k).join
+
+def specCopied (n : Nat) (p : APool) : Op → Option Val
+  | .ctorAny k src c =>
+    if (decide (k < n) && (p k).isNone) && (p src).isSome && decide (c ≠ .rref) then aHeld p src else none
+  | .ctorVal k c v => if (decide (k < n) && (p k).isNone) && decide (c ≠ .rref) then some v else none
+  | .asgnAny a b c =>
+    if (p a).isSome && (p b).isSome && decide (c ≠ .rref) then aHeld p b else none
+  | .asgnVal a c v => if (p a).isSome && decide (c ≠ .rref) then some v else none
+  | .castVal a t f =>
+    if (p a).isSome && decide (f ≠ .rvalMove) && decide ((aHeld p a).map (·.tag) = some t) then aHeld p a else none
+  | _ => none
+
+def specStepX (n : Nat) (p : APool) (x : Op × Bool) : APool × Out :=
+  match x.2, specCopied n p x.1 with
+  | true, some v => if v.tag = .thr then (p, .threw) else specStep n p x.1
+  | _, _ => specStep n p x.1
+
+def specRunX (n : Nat) (p : APool) (xs : List (Op × Bool)) : APool :=
+  xs.foldl (fun p x => (specStepX n p x).1) p
+
+def specViewSlot (p : APool) (k : Nat) : Option SlotView :=
+  match p k with
+  | none => none
+  | some h =>
+    let cast := allTags.map fun t => if h.map (·.tag) = some t then h else none
+    some { hasValue := h.isSome, type := h.map (·.tag), ptr := cast, cptr := cast, ref := cast }
+
+def specLiveOfTag (n : Nat) (p : APool) (t : Tag) : Nat :=
+  ((List.range n).filter fun k => match aHeld p k with | some v => v.tag == t | none => false).length
+
 end BFL.AnyBox
